@@ -340,7 +340,13 @@ class BDDNonTerminalNode(BDDNode):
                 if succ.value:
                     repr.append('%s%s' % (neg, self.var))
             else:
-                repr.append('%s%s & %s' % (neg, self.var, succ))
+                succ_str = str(succ)
+                if ((not isinstance(succ.low, BDDTerminalNode) or
+                        succ.low.value) and
+                        (not isinstance(succ.high, BDDTerminalNode) or
+                         succ.high.value)):
+                    succ_str = '(%s)' % (succ_str)
+                repr.append('%s%s & %s' % (neg, self.var, succ_str))
 
         if len(repr) == 2:
             return '(%s) | (%s)' % (repr[0], repr[1])
